@@ -1,0 +1,60 @@
+//go:build verif
+
+package capacity
+
+import (
+	"volcano.sh/volcano/pkg/scheduler/api"
+	"volcano.sh/volcano/pkg/scheduler/framework"
+)
+
+// VerifQueueRecord is a read-only deep copy of one per-queue record.
+type VerifQueueRecord struct {
+	QueueID        api.QueueID
+	Name           string
+	Share          float64
+	Deserved       *api.Resource
+	Allocated      *api.Resource
+	Request        *api.Resource
+	Elastic        *api.Resource
+	Inqueue        *api.Resource
+	Capability     *api.Resource
+	RealCapability *api.Resource
+	Guarantee      *api.Resource
+}
+
+// VerifSnapshot is a deep copy of the plugin state built by OnSessionOpen.
+type VerifSnapshot struct {
+	TotalResource  *api.Resource
+	TotalGuarantee *api.Resource
+	Queues         map[api.QueueID]VerifQueueRecord
+}
+
+func verifClone(r *api.Resource) *api.Resource {
+	if r == nil {
+		return nil
+	}
+	return r.Clone()
+}
+
+// VerifNew builds the plugin exactly as New does and returns, next to it, a
+// function that copies the plugin's current per-queue records.
+func VerifNew(arguments framework.Arguments) (framework.Plugin, func() VerifSnapshot) {
+	p := New(arguments)
+	cp := p.(*capacityPlugin)
+	return p, func() VerifSnapshot {
+		s := VerifSnapshot{
+			TotalResource:  verifClone(cp.totalResource),
+			TotalGuarantee: verifClone(cp.totalGuarantee),
+			Queues:         map[api.QueueID]VerifQueueRecord{},
+		}
+		for id, a := range cp.queueOpts {
+			s.Queues[id] = VerifQueueRecord{
+				QueueID: a.queueID, Name: a.name, Share: a.share,
+				Deserved: verifClone(a.deserved), Allocated: verifClone(a.allocated), Request: verifClone(a.request),
+				Elastic: verifClone(a.elastic), Inqueue: verifClone(a.inqueue), Capability: verifClone(a.capability),
+				RealCapability: verifClone(a.realCapability), Guarantee: verifClone(a.guarantee),
+			}
+		}
+		return s
+	}
+}
